@@ -209,7 +209,8 @@ def random_kyg(rng, comma, newcols):
         cols = ["Muro", n, fmtnum(a, comma, rng), fmtnum(u, comma, rng), fmtnum(b, comma, rng)]
         extra = ["", "", ""]
         if newcols:
-            extra = ["Fachada", rng.choice(["E", "S", "N", "O", "H"]), "SATE"]
+            # (construction names of HULC's own library contain commas: "MED por defecto C, D, E")
+            extra = ["Fachada", rng.choice(["E", "S", "N", "O", "H"]), rng.choice(["SATE", "MED por defecto C, D, E", "ladrillo, medio pie"])]
             cols += [extra[0], extra[1] + " ", extra[2]]
         lines.append(";".join(cols))
         exp_w[n] = [n, a, u, b] + extra
@@ -220,7 +221,7 @@ def random_kyg(rng, comma, newcols):
             cols = ["Ventana", vn, fmtnum(va, comma, rng), fmtnum(vu, comma, rng), o + " ", fmtnum(ff, comma, rng)]
             g, inf, cons = -1, -1, ""
             if newcols:
-                g, inf, cons = round(rng.uniform(0.3, 0.85), 2), float(rng.choice([3, 9, 27, 50])), "PVC 2"
+                g, inf, cons = round(rng.uniform(0.3, 0.85), 2), float(rng.choice([3, 9, 27, 50])), rng.choice(["PVC 2", "Doble Claro 4,6", "Hueco, tipo 1"])
                 cols += [fmtnum(g, comma, rng), fmtnum(-1.0, comma, rng), fmtnum(1.0, comma, rng), fmtnum(inf, comma, rng), cons]
             lines.append(";".join(cols))
             az, htot = float(rng.choice([0, 90, 180, 270])), float(rng.choice([64000, 80000, 100000, 128000]))
